@@ -1,0 +1,21 @@
+//go:build verif
+// +build verif
+
+package network
+
+// Accessors for the C09 verification harness (/verif/harness/cmd/c09).
+
+// VerifHandleError exposes the translation of raw network errors.
+func VerifHandleError(err error) error { return handleError(err) }
+
+// VerifConnList returns the connections registered for a peer, in slice order.
+func (r *Router) VerifConnList(id ServerIdentityID) []Conn {
+	r.Lock()
+	defer r.Unlock()
+	return append([]Conn(nil), r.connections[id]...)
+}
+
+// VerifErrorHandlers returns the number of registered connection-error handlers.
+func (r *Router) VerifErrorHandlers() int {
+	return len(r.connectionErrorHandlers)
+}
